@@ -59,6 +59,18 @@ CHECKS = {
    text="For each generated program the computation is crashed after k tasks and before/after the k-th data set, storage is inspected by plain directory listing, compute(resume=True) is run under a recording executor and the monitor requires: an operation is skipped only if every output was complete, complete arrays are not recomputed (except array creation and 0-d outputs), nothing is deleted; the result equals NumPy or the resume is refused before any task (plans with structured-dtype arrays only).",
    note="Trusted: TLC; a crash = client stops between tasks or inside a data set (before/after it took effect); torn single-chunk writes are excluded by LocalStore's atomic rename. Plans <= 60 tasks; quick samples 8 crash points per program, thorough enumerates all.",
    design_ref="DESIGN.md §5 C09"),
+ "C10": dict(
+   engine="PlanGraph",
+   technique="TLA+ spec PlanGraph.tla (names, plan merging, shared operation objects, in-place re-targeting) model-checked by TLC: every value change goes through a listed taint, ValueFixed itself is violated (F8/F9 are real); TLC-generated call histories (all histories of 5-6 calls + simulated longer ones), labelled with the model's taints, replayed into cubed against NumPy shadows and checksums",
+   text="After every replayed call the harness computes what the history says, compares with the value fixed when the array was built, and checks the checksums of in-memory inputs, of a Zarr source opened for reading and of every target written by an earlier store; value-neutral calls (re-compute with resume, optimization on/off, another default executor) are interleaved. A failing history whose taint set (computed by TLC) is empty is a violation; tainted failures are the known findings F8/F9.",
+   note="Trusted: TLC; the model's taint as the identity of the known findings (a tainted history that fails for a NEW reason is attributed to the finding). compile_function is not among the replayed calls.",
+   design_ref="DESIGN.md §5 C10, §4.3"),
+ "C11": dict(
+   engine="PlanGraph+StoreTrace",
+   technique="TLA+ spec PlanGraph.tla model-checked by TLC (re-targeting taints); store/to_zarr calls enumerated over sources x targets x regions x eager/lazy x pairs x executors, facts read back with plain zarr and judged by the TLA+ monitor StoreTrace.tla",
+   text="Targets are pre-filled with sentinels; after the call (or after computing the lazily returned arrays) each target must exist, hold exactly the source values inside the region and sentinels outside; unsafe requests (misaligned region, region end not at a chunk boundary or the edge, wrong shape, source narrower than a chunk at a misaligned offset) must be rejected with an allowed exception and without any store write or new file. Threads runs use injected write latency so that multi-writer layouts lose data deterministically.",
+   note="Trusted: TLC; plain zarr reads as the observer of target contents. One source stored to several targets in one call is the open finding F8/F9 (taint from PlanGraph).",
+   design_ref="DESIGN.md §5 C11"),
  "C12": dict(
    engine="DagExec+TaskTrace",
    technique="zarr-level write records of every task validated by the TLA+ monitor TaskTrace.tla (value shape = region shape is the enabling condition of the write action); declared vs backing vs result metadata compared in the monitor; DagExec.tla multi-output plan model-checked",
